@@ -19,7 +19,7 @@ NAMES = {"exact": "http.echo", "suffix": "http.echoX", "prefix": "xhttp.echo", "
          "unexposed_registered": "private.obj", "unknown": "http.nothere"}
 # internal.http.admin contains the default pattern, but not at its start: it is not exposed (the pattern is matched at the start)
 REGISTERED = {"http.echo": "echo", "http.other": "other", "private.obj": "private", "internal.http.admin": "internal"}
-MEMBERS = {"method": "echo", "method_raises": "fail", "attribute": "value", "meta": "$meta", "unknown": "nosuch", "private": "_secret",
+MEMBERS = {"method": "echo", "method_raises": "fail", "method_streams": "numbers", "attribute": "value", "meta": "$meta", "unknown": "nosuch", "private": "_secret",
            "method_slow": "slow"}
 PATTERNS = {"default": r"http\.", "anchored": r"http\.echo$", "empty": ""}
 PARAMS = {"none": [], "one": [("message", "hi there")], "two": [("a", "1"), ("b", "two")], "repeated": [("a", "1"), ("a", "2")],
@@ -126,6 +126,10 @@ def run_cases(cases, sqlfile=None):
                 self._ran("fail", kwargs, None)
                 raise ValueError("deliberate failure in " + self.tag)
 
+            def numbers(self, **kwargs):
+                self._ran("numbers", kwargs, None)
+                return (i for i in range(3))
+
             @property
             def value(self):
                 return self._ran("value", {}, "value-of-" + self.tag)
@@ -224,7 +228,7 @@ def run_cases(cases, sqlfile=None):
                     tr["body"] = "result"
                 elif isinstance(val, dict) and val.get("__exception__") and "ValueError" in str(val.get("__class__")):
                     tr["body"] = "exception"
-                elif isinstance(val, dict) and set(val) == {"methods", "attributes"} and set(val["methods"]) == {"echo", "fail", "nosuch_other", "slow"} \
+                elif isinstance(val, dict) and set(val) == {"methods", "attributes"} and set(val["methods"]) == {"echo", "fail", "nosuch_other", "numbers", "slow"} \
                         and set(val["attributes"]) == {"value"}:
                     tr["body"] = "meta"
                 tr["body_head"] = body[:100].decode("latin-1")
@@ -263,8 +267,8 @@ def run(ctx):
                 raise util.MachineryError("Matches table disagrees with the concrete names: %s %s" % (p, n))
     tlc.mc(ctx, "Gateway", cfg="MC_Gateway.cfg")
     cases = tlc.gen(ctx, "Gen_Gateway", cfg="Gen_Gateway.cfg")
-    if len(cases) != 11730:
-        raise util.MachineryError("expected 11730 cases, got %d" % len(cases))
+    if len(cases) != 11774:
+        raise util.MachineryError("expected 11774 cases, got %d" % len(cases))
     cases.sort(key=lambda c: json.dumps(c["r"], sort_keys=True))
     if ctx.quick:
         cases = [c for i, c in enumerate(cases) if c["decide"] in ("redirect", "notfound", "index", "preflight") or (i + ctx.seed) % 3 == 0]
